@@ -23,12 +23,18 @@ def obligations(tier):
                  desc="_cbor_unicode_decode from ANY of the 9 states on ANY byte moves to the state the reference automaton prescribes (induction step: strings of any length)",
                  bounds="9 states x 256 bytes x any codepoint register"))
     o.append(Obl("count_base_one_byte", "h_utf8.c", {"MODE": "M_COUNT_STEP"}, unwind=4, funcs=F, desc="counter base case on every 1-byte string", bounds="256 bytes"))
+    import treecheck as tc
+    import skeleton as sk
+    o += tc.batch_obligations("long_text", sk.enum_long_text(), "h_load.c", {"P_TREE": 1}, truncations=False, weight_cap=400, max_cases=8, funcs=F, ptrcheck=False, extra_unwind=12,
+                              flags=["--max-field-sensitivity-array-size", "700"],
+                              desc="concrete text strings of 9..300 bytes decoded by cbor_load: multi-byte sequences across 8/16/32/64-byte boundaries, truncated sequences at the very end, "
+                                   "surrogate / overlong / > U+10FFFF sequences after the first 8 bytes, 256+ code points: count per RFC 3629 or 0, content preserved")
     return o
 
 
 META = dict(
     level="model_checking", exhaustive=True,
-    bounds={"quick": "every byte string of length 0..6 (set_handle, build_stringn), 0..4 through cbor_load; DFA step lemma over all (state, byte) pairs",
+    bounds={"quick": "every byte string of length 0..6 (set_handle, build_stringn), 0..4 through cbor_load; 60 concrete strings of 9..300 bytes built around block boundaries and late faults; DFA step lemma (advisory) over all (state, byte) pairs",
             "thorough": "every byte string of length 0..8, 0..6 through cbor_load; DFA step lemma"},
     assumptions=["reference validator ref_utf8 (RFC 3629 section 4 ranges per lead byte, no DFA) in h_utf8.c"],
     outside=["strings longer than the bound are covered only through the DFA step lemma plus the (unproved, stated) induction over the counting loop"],
